@@ -277,10 +277,17 @@ def gen_z(repo, tree, out):
     fn = find_function(tree, 'z')
     _args(fn, ['col'])
     b = body_nodoc(fn)
+    if len(b) == 2:
+        # an IntColumn is first converted to a FloatColumn with the same rows and cells (pinned)
+        expect_same(b[0], "if isinstance(col, IntColumn):\n    _col = FloatColumn(col._datamatrix)\n"
+                          "    _col._rowid = col._rowid\n    _col._seq = col._seq.astype(float)\n    col = _col")
+        b = b[1:]
+    else:
+        raise TranslationError('z: expected the IntColumn conversion followed by the formula')
     if len(b) != 1 or not isinstance(b[0], ast.Return):
         raise TranslationError('z: body')
     env = Env([('col', 'x', 'Q'), ('col.mean', 'mean', 'Q'), ('col.std', 'std', 'Q')])
-    out.append('(* z: the per-cell formula (column arithmetic is element-wise: C13) *)\n'
+    out.append('(* z: the per-cell formula (column arithmetic is element-wise: C13); the result is a FloatColumn for an IntColumn *)\n'
                'Definition k_z_cell (x mean std : Q) : Q := %s.\n' % _qexpr(b[0].value, env))
     base = _load(repo, 'datamatrix/_datamatrix/_basecolumn.py')
     fn = find_function(base, 'BaseColumn.mean')
